@@ -519,7 +519,12 @@ class RI:
         except Exhausted:
             self.result = ("exhausted",)
             if self.with_end:
-                # end() on an unfinished parse reports FAIL (the parse is incomplete)
+                # end() on an unfinished parse reports FAIL (the parse is incomplete); effects still pending then (they sit behind
+                # the END that was consumed, waiting for a byte that never comes) may or may not have run - slack rule 4
+                try:
+                    self.error(NoMatch())
+                except NoMatch:
+                    pass
                 self.emit("fail", None, droppable=False)
                 self.result = ("fail",)
         except BreakLoop:
